@@ -7,6 +7,8 @@ from .angle import LorentzVector
 
 
 def get_p(M, ma, mb):
+    # plain Python floats would pass through single precision in tf.cast / tf.where
+    M = tf.cast(tf.convert_to_tensor(M, dtype_hint=tf.float64), tf.float64)
     m2 = M * M
     m_p = (ma + mb) ** 2
     m_m = (ma - mb) ** 2
